@@ -678,6 +678,8 @@ func (p *Proc) contractEc(st *State, ct *Contract, fi *FuncInfo, fn *types.Func,
 func (p *Proc) callModular(ec *ectx, ct *Contract, fi *FuncInfo, fn *types.Func, sig *types.Signature, recv *Val, args []Val, call *ast.CallExpr) Val {
 	ct.Used = true
 	st := ec.st
+	ck := "G:$calls:" + fn.Name()
+	p.heapSet(st, ck, Add(p.heapGet(st, ck, SInt), IntLit(1)))
 	extra := p.bindParams(ct, fi, sig, recv, args)
 	cname := calleeText(call)
 	ord := p.callOrdinal(call)
@@ -699,6 +701,9 @@ func (p *Proc) callModular(ec *ectx, ct *Contract, fi *FuncInfo, fn *types.Func,
 	p.handOver(ec, ct, fi, sig, args, call)
 	// frame
 	p.applyAssigns(st, pre, ct, fi, fn, extra, call)
+	// a function value handed to a parameter that is not declared `defers` may have run before
+	// the callee returned: its effects happened, too
+	p.syncClosureEffects(ec, ct, sig, args, call)
 	// results
 	var results []Val
 	for i := 0; i < sig.Results().Len(); i++ {
